@@ -11,6 +11,8 @@
 //	render-repeated       X{{ render "f" }}Y{{ render "f" }}Z  ==  X + t + Y + t + Z, t = f run alone (converted if Markdown in HTML)
 //	extends-vs-expanded   child extends layout          ==  layout file with the child's import, vars and macros declared in place
 //	import-vs-local       {% import "lib" %} + calls    ==  the library's declarations written in the importing file
+//	for-import-vs-qualified  {% import "f" for N %}{{ N() }} (also period imports; other imported files declare N too)  ==  {% import q "f" %}{{ q.N() }}
+//	dead-code-removed     a page with renders inside code that never runs (if false, runtime-false if, else of a true if, macro never called)  ==  the page without it
 //	default-missing       {{ render "missing" default E }} == {{ E }}
 //	default-present       {{ render "f" default E }}       == {{ render "f" }}
 //
@@ -40,21 +42,22 @@ func (prop) Level() string { return "exploration" }
 const (
 	scopeFastPath   = "render-show-other-format"
 	scopeTypedMacro = "typed-macro-other-format"
+	scopeDeadInit   = "pkg-var-init-dead-first-site"
 )
 
 func (prop) Drive(d *core.Driver) error {
 	n := d.N(1200, 30000)
-	d.T.Rule = "a set of 1-5 partials of mixed formats in nested directories (rendering each other through relative and absolute paths, with same-named decoy files in other directories), optional imported libraries with 1-3 macros (with/without parameters, package variables, calling each other) is generated; one of eight rewrites produces the second file set; both are built and run with the same globals (strings holding < & \" ', ints, an HTML value, a slice). distinct_nontrivial counts distinct (relation, formats involved / import form, outcome class, whether nested renders, macros calls, conversions occurred) signatures among pairs where both sides produced output, plus agreeing-error signatures"
+	d.T.Rule = "a set of 1-5 partials of mixed formats in nested directories (rendering each other through relative and absolute paths, with same-named decoy files in other directories), optional imported libraries with 1-3 macros (with/without parameters, package variables, calling each other) is generated; one of ten rewrites produces the second file set; both are built and run with the same globals (strings holding < & \" ', ints, an HTML value, a slice). distinct_nontrivial counts distinct (relation, formats involved / import form, outcome class, whether nested renders, macros calls, conversions occurred) signatures among pairs where both sides produced output, plus agreeing-error signatures"
 	d.T.Assumptions = []string{
 		"text atoms start and end with a non-space byte, so the documented removal of statement-only lines cannot make the two sides differ",
 		"globals are declared with values (the declared-without-value path is C17)",
 		"error messages and positions are not compared, only success/failure",
 	}
-	inScope, typedScope := d.InScope(scopeFastPath), d.InScope(scopeTypedMacro)
+	inScope, typedScope, deadScope := d.InScope(scopeFastPath), d.InScope(scopeTypedMacro), d.InScope(scopeDeadInit)
 	var cases []core.Case
 	for i := 0; i < n; i++ {
 		r := core.Rand(d.Seed, fmt.Sprintf("C16/%d", i))
-		cd := genCase(r, inScope, typedScope)
+		cd := genCase(r, inScope, typedScope, deadScope)
 		cases = append(cases, core.NewCase(fmt.Sprintf("pair-%d", i), cd))
 		if i < 3 {
 			d.T.Sample(cd)
